@@ -24,8 +24,33 @@ def own_walk(fn_node):
             todo.append(c)
 
 
-def scan(ctx, props, where, anchor, desc, ok, detail=None):
-    ctx.col.add_done('SCAN', props, where, anchor, desc, bool(ok), detail=detail)
+def scan(ctx, props, where, anchor, desc, ok, detail=None, shape=False):
+    """a decidable check on the AST.  shape=True marks a *recognition of one way of writing it*: when the source no
+    longer has that shape the code may still be right (a rename, an equivalent rewrite), so the obligation is then
+    undecided - the bounded stand-in decides - and never a violation.  Structural analyses (writer sets, name sets,
+    definite assignment, imports) are refutable."""
+    ob = ctx.col.add_done('SCAN', props, where, anchor, desc, bool(ok), detail=detail)
+    if shape and not ok:
+        ob.status = 'unknown'
+        ob.detail = 'the source no longer has the recognised shape (%s)' % (detail or 'no match')
+    return ob
+
+
+def alpha(node_or_src):
+    "source text with every local name replaced by its order of first appearance (insensitive to renaming)"
+    node = ast.parse(node_or_src, mode='eval').body if isinstance(node_or_src, str) else node_or_src
+    node = ast.parse(ast.unparse(node), mode='eval').body
+    names = {}
+    for n in ast.walk(node):
+        pass
+    out = []
+
+    class R(ast.NodeTransformer):
+        def visit_Name(self, n):
+            if n.id not in names:
+                names[n.id] = 'v%d' % len(names)
+            return ast.copy_location(ast.Name(id=names[n.id], ctx=n.ctx), n)
+    return ast.unparse(R().visit(node))
 
 
 def norm_src(node):
@@ -46,7 +71,7 @@ def gen_c12_scans(ctx):
         f = repo.resolve(q)
         body = [s for s in f.node.body if not (isinstance(s, ast.Expr) and isinstance(s.value, ast.Constant))] if f else []
         ok = len(body) == 1 and isinstance(body[0], ast.Return) and norm_src(body[0].value) == 'min(vals)'
-        scan(ctx, P, q, 'min-delegates', 'min(vals) is the builtin minimum under the class comparisons', ok)
+        scan(ctx, P, q, 'min-delegates', 'min(vals) is the builtin minimum under the class comparisons', ok, shape=True)
     gen_rational_wrappers(ctx, P)
 
 
@@ -78,7 +103,7 @@ def gen_rational_wrappers(ctx, P):
                   'fraction_method = getattr(Fraction, method)' in src and
                   'setattr(Rational, method, %s)' % inner[0].name in src)
     scan(ctx, P, 'droop.values.rational._wrap_method', 'wrapper-shape',
-         'a wrapper calls the Fraction method and converts the result to Rational (closure of the class)', ok)
+         'a wrapper calls the Fraction method and converts the result to Rational (closure of the class)', ok, shape=True)
     rat = repo.resolve('droop.values.rational.Rational')
     scan(ctx, P, 'droop/values/rational.py', 'subclass-of-fraction',
          'Rational derives from fractions.Fraction (A-lib: exact field arithmetic and ordering)',
@@ -121,7 +146,7 @@ def gen_c14_scans(ctx):
     for mn in files:
         m = repo.module(mn)
         if m is None:
-            scan(ctx, P, mn, 'render-via-str', 'module present', False)
+            scan(ctx, P, mn, 'render-via-str', 'module present', False, shape=True)
             continue
         bad = []
         for n in ast.walk(m.tree):
@@ -135,7 +160,7 @@ def gen_c14_scans(ctx):
                 bad.append('float format in literal at line %d' % n.lineno)
         scan(ctx, P, mn, 'render-via-str',
              'values reach text only through %s / str() / the JSON ValueEncoder (no float, round or format)', not bad,
-             detail='; '.join(bad))
+             detail='; '.join(bad), shape=True)
     # the JSON encoder prints values with str()
     rec = repo.module('droop.record')
     enc_ok = False
@@ -145,7 +170,7 @@ def gen_c14_scans(ctx):
                 rets = [norm_src(r.value) for r in ast.walk(n) if isinstance(r, ast.Return) and r.value is not None]
                 enc_ok = 'str(obj)' in rets and 'str(values.rational.Rational(obj))' in rets
     scan(ctx, P, 'droop.record.ElectionRecord.json', 'encoder-uses-str',
-         'the JSON encoder renders Fixed/Guarded/Rational (and stray Fraction) values with str()', enc_ok)
+         'the JSON encoder renders Fixed/Guarded/Rational (and stray Fraction) values with str()', enc_ok, shape=True)
     # %d is applied to integers only in the renderers
     bad = []
     if rec is not None:
@@ -156,7 +181,7 @@ def gen_c14_scans(ctx):
                 if not re.fullmatch(r"(self\['seats'\]|self\['nballots'\]|A\['round'\])", src):
                     bad.append('%s %% %s' % (n.left.value.strip(), src))
     scan(ctx, P, 'droop/record.py', 'percent-d-ints', '%d is applied to seats / ballots / round numbers only', not bad,
-         detail='; '.join(bad))
+         detail='; '.join(bad), shape=True)
 
 
 # --------------------------------------------------------------------------------------------- C17
@@ -222,7 +247,7 @@ def gen_c17_scans(ctx):
     order.sort(key=lambda x: x[1])
     scan(ctx, P, 'droop.election.Election.__init__', 'merge-order',
          'ballot-file options are merged as the file layer before rule.options(), which precedes ArithmeticClass',
-         [o[0] for o in order] == ['update', 'rule.options', 'ArithmeticClass'], detail=str(order))
+         [o[0] for o in order] == ['update', 'rule.options', 'ArithmeticClass'], detail=str(order), shape=True)
     # count() of statutory rules does not call getopt at all except the name (frame for "identical count")
     for mn in STATUTORY:
         m = repo.module(mn)
@@ -257,11 +282,11 @@ def gen_c17_scans(ctx):
                 names_over.append('overrides = E.options.overrides()' in body_src and
                                   "'\\tOverridden options: %s\\n' % ', '.join(overrides)" in body_src)
     scan(ctx, P, 'droop.record', 'record-options', "the record's 'options' entry is Options.record() (the four layers and the effective values)",
-         stores == ['E.options.record()'], detail=str(stores))
+         stores == ['E.options.record()'], detail=str(stores), shape=True)
     scan(ctx, P, 'droop.record', 'report-names-unused', 'the report header names exactly Options.unused()',
-         names_unused == [True], detail=str(names_unused))
+         names_unused == [True], detail=str(names_unused), shape=True)
     scan(ctx, P, 'droop.record', 'report-names-overridden', 'the report header names exactly Options.overrides()',
-         names_over == [True], detail=str(names_over))
+         names_over == [True], detail=str(names_over), shape=True)
 
 
 # --------------------------------------------------------------------------------------------- C20
@@ -409,7 +434,7 @@ def gen_c09_scans(ctx):
         for n in ast.walk(qp.node):
             if isinstance(n, ast.If) and norm_src(n.test) == 'restart':
                 ok = any(isinstance(c, ast.Call) and isinstance(c.func, ast.Attribute) and c.func.attr == 'unelect' for c in ast.walk(n))
-    scan(ctx, P, 'droop.rules.qpq.Rule.count', 'unelect-only-in-restart', 'unelect() is called only inside QPQ\'s restart block', ok, detail=str(calls))
+    scan(ctx, P, 'droop.rules.qpq.Rule.count', 'unelect-only-in-restart', 'unelect() is called only inside QPQ\'s restart block', ok, detail=str(calls), shape=True)
     # ballots: index / multiplier / ranking written only by Ballot methods
     for attr, allowed in (('index', {'droop.election.Election.Ballot.__init__', 'droop.election.Election.Ballot.advance',
                                      'droop.election.Election.Ballot.restart'}),
@@ -446,14 +471,14 @@ def gen_rounds_protocol(ctx):
                     and norm_src(n.body[0]) == 'E.rounds.append(C.copy())':
                 ok = True
     scan(ctx, P, 'droop.record.ElectionRecord.action', 'rounds-append', "a copy of the candidates is saved exactly when a 'round' action is recorded",
-         ok)
+         ok, shape=True)
     cp = repo.resolve('droop.candidates.Candidates.copy')
     ok = cp is not None and 'copy.copy(c)' in norm_src(cp.node) and 'for c in self' in norm_src(cp.node)
-    scan(ctx, P, 'droop.candidates.Candidates.copy', 'rounds-copy', 'Candidates.copy() holds a shallow copy of every candidate (tally, id and ballot order as they were)', ok)
+    scan(ctx, P, 'droop.candidates.Candidates.copy', 'rounds-copy', 'Candidates.copy() holds a shallow copy of every candidate (tally, id and ballot order as they were)', ok, shape=True)
     nr = repo.resolve('droop.election.Election.newRound')
     body = [norm_src(x) for x in nr.node.body if not (isinstance(x, ast.Expr) and isinstance(x.value, ast.Constant))] if nr else []
     scan(ctx, P, 'droop.election.Election.newRound', 'rounds-newround', "newRound() adds one to E.round and records one 'round' action",
-         body == ['self.round += 1', "self.logAction('round', 'New Round')"], detail=str(body))
+         body == ['self.round += 1', "self.logAction('round', 'New Round')"], detail=str(body), shape=True)
     rw = []
     for fn in repo.all_functions():
         for n in own_walk(fn.node):
@@ -509,9 +534,25 @@ def _func_src(repo, q):
     return f, (ast.unparse(f.node) if f is not None else '')
 
 
+def gen_fill_scan(ctx):
+    "frame of the trusted contract of ElectionRecord._fill: the header filler never touches the action list"
+    repo = ctx.repo
+    f = repo.resolve('droop.record.ElectionRecord._fill')
+    bad = []
+    if f is not None:
+        for n in ast.walk(f.node):
+            if isinstance(n, ast.Constant) and n.value == 'actions':
+                bad.append(n.lineno)
+            if isinstance(n, ast.Attribute) and n.attr in ('append', 'pop', 'clear', 'extend', 'insert', 'remove') :
+                bad.append(n.lineno)
+    scan(ctx, ['C18', 'C19'], 'droop.record.ElectionRecord._fill', 'fill-does-not-touch-actions',
+         'the header filler neither names the action list nor mutates any list', f is not None and not bad, detail=str(bad))
+
+
 def gen_c19_scans(ctx):
     repo = ctx.repo
     P = ['C19']
+    gen_fill_scan(ctx)
     f, _ = _func_src(repo, 'droop.record.ElectionRecord.action')
     ok = False
     detail = ''
@@ -529,7 +570,7 @@ def gen_c19_scans(ctx):
         ok = len(appends) >= 1 and all(appends)
         detail = 'appends followed by return/end: %s' % appends
     scan(ctx, P, 'droop.record.ElectionRecord.action', 'complete-before-append',
-         'an action dictionary is appended to the record only when it is complete (append is the last step on its path)', ok, detail)
+         'an action dictionary is appended to the record only when it is complete (append is the last step on its path)', ok, detail, shape=True)
     # 'actions' is only ever appended to
     bad = []
     for mn, m in repo.modules.items():
@@ -561,7 +602,7 @@ def gen_c19_scans(ctx):
     f, src = _func_src(repo, 'Droop.main')
     ok = f is not None and 'except KeyboardInterrupt:' in src and 'intr = True' in src and 'E.report(intr)' in src and \
         'E.dump(intr)' in src and 'E.json(intr)' in src
-    scan(ctx, P, 'Droop.main', 'cli-intr', 'the command-line driver catches KeyboardInterrupt around the count and passes intr to report/dump/json', ok)
+    scan(ctx, P, 'Droop.main', 'cli-intr', 'the command-line driver catches KeyboardInterrupt around the count and passes intr to report/dump/json', ok, shape=True)
     # record.report / dump fill the header on demand
     for q in ('droop.record.ElectionRecord.report', 'droop.record.ElectionRecord.dump'):
         f, src = _func_src(repo, q)
@@ -573,11 +614,12 @@ def gen_c19_scans(ctx):
             idx_fill = next((i for i, t in enumerate(txt) if 'self._fill()' in t and 'not self.filled' in t), None)
             idx_read = next((i for i, t in enumerate(txt) if "self['" in t and "self['actions']" not in t and '_fill' not in t), None)
             okf = idx_fill is not None and (idx_read is None or idx_fill < idx_read)
-        scan(ctx, P, q, 'header-on-demand', 'the record header is filled before any header key is read (renderable at every interruption point)', okf)
+        scan(ctx, P, q, 'header-on-demand', 'the record header is filled before any header key is read (renderable at every interruption point)', okf, shape=True)
 
 
 def gen_c18_scans(ctx):
     repo = ctx.repo
+    gen_fill_scan(ctx)
     P = ['C18']
     # keys read from actions / candidate states by the renderers are keys written by action() / as_dict / the rule hooks
     reads, writes = {}, set()
@@ -611,7 +653,7 @@ def gen_c18_scans(ctx):
                                             'self.withdrawn = self.C.withdrawn()', 'self.postCheck()']
         except ValueError:
             ok = False
-    scan(ctx, P, 'droop.election.Election.count', 'end-last', "the 'end' action is logged after rule.count() and nothing but taking the result lists follows", ok)
+    scan(ctx, P, 'droop.election.Election.count', 'end-last', "the 'end' action is logged after rule.count() and nothing but taking the result lists follows", ok, shape=True)
     # every rule's first state-bearing action is begin (mpls: count, after the first round)
     for mn in RULE_MODULES:
         f = repo.resolve(mn + '.Rule.count')
@@ -626,15 +668,15 @@ def gen_c18_scans(ctx):
             calls = [c for c in calls if c[1] != 'tie']
             first = calls[0][1] if calls else None
         want = 'count' if mn.endswith('mpls') else 'begin'
-        scan(ctx, P, mn + '.Rule.count', 'begins-with-begin', "the first action logged by the rule is '%s'" % want, first == want, str(first))
+        scan(ctx, P, mn + '.Rule.count', 'begins-with-begin', "the first action logged by the rule is '%s'" % want, first == want, str(first), shape=True)
     # the JSON rendering only ever sees JSON-able values plus the arithmetic classes handled by the encoder
     f, src = _func_src(repo, 'droop.record.ElectionRecord.json')
     ok = f is not None and 'json_.dumps(self, cls=ValueEncoder, sort_keys=True, indent=2)' in src
-    scan(ctx, P, 'droop.record.ElectionRecord.json', 'json-dumps', 'the JSON rendering is json.dumps of the record itself with the value encoder', ok)
+    scan(ctx, P, 'droop.record.ElectionRecord.json', 'json-dumps', 'the JSON rendering is json.dumps of the record itself with the value encoder', ok, shape=True)
     # the dump writes one row per action
     f, src = _func_src(repo, 'droop.record.ElectionRecord.dump')
     ok = f is not None and "for A in self['actions']:" in src and "dumps.append('\\t'.join(r) + '\\n')" in src
-    scan(ctx, P, 'droop.record.ElectionRecord.dump', 'row-per-action', 'the dump has exactly one row per recorded action', ok)
+    scan(ctx, P, 'droop.record.ElectionRecord.dump', 'row-per-action', 'the dump has exactly one row per recorded action', ok, shape=True)
 
 
 # --------------------------------------------------------------------------------------------- C10 / C11
@@ -718,10 +760,10 @@ def gen_c11_scans(ctx):
     scan(ctx, P, 'droop/rules/*.py', 'no-id-order', 'candidate ids are compared for equality only, never ordered', not bad, '; '.join(bad))
     f, src = _func_src(repo, 'droop.candidate.Candidate.__init__')
     scan(ctx, P, 'droop.candidate.Candidate.__init__', 'withdrawn-state', "a withdrawn candidate starts in state 'withdrawn' (never hopeful)",
-         f is not None and "self.state = 'withdrawn' if isWithdrawn else 'hopeful'" in src)
+         f is not None and "self.state = 'withdrawn' if isWithdrawn else 'hopeful'" in src, shape=True)
     f, src = _func_src(repo, 'droop.profile.ElectionProfile.BallotLine.__init__')
     scan(ctx, P, 'droop.profile.ElectionProfile.BallotLine.__init__', 'strip-withdrawn', 'withdrawn candidates are removed from every rank when a ballot line is stored',
-         f is not None and 'cid in profile.withdrawn' in src and 'rank.remove(cid)' in src)
+         f is not None and 'cid in profile.withdrawn' in src and 'rank.remove(cid)' in src, shape=True)
 
 
 # --------------------------------------------------------------------------------------------- C03 statutory clauses
@@ -739,12 +781,16 @@ def gen_c03_scans(ctx):
         m = repo.module(mn)
         found = []
         for n in ast.walk(m.tree):
-            if isinstance(n, ast.Assign) and any(isinstance(t, ast.Attribute) and t.attr == 'weight' and norm_src(t) == 'b.weight' for t in n.targets):
-                found.append(norm_src(n.value))
-        scan(ctx, ['C03', 'C06'], mn, 'transfer-value-formula', 'the transfer value is computed as the clause words it: %s' % what, found == [expr], str(found))
+            if isinstance(n, ast.Assign) and any(isinstance(t, ast.Attribute) and t.attr == 'weight' and isinstance(t.value, ast.Name)
+                                                 for t in n.targets):
+                tn = [t.value.id for t in n.targets if isinstance(t, ast.Attribute) and t.attr == 'weight'][0]
+                # the ballot variable is named first so that it is v0 whatever it is called
+                found.append(alpha(ast.parse('(%s, %s)' % (tn, norm_src(n.value)), mode='eval').body))
+        scan(ctx, ['C03', 'C06'], mn, 'transfer-value-formula', 'the transfer value is computed as the clause words it: %s' % what,
+             found == [alpha('(b, %s)' % expr)], str(found), shape=True)
     f, src = _func_src(repo, 'droop.rules.meek_prf.Rule.count')
     ok = f is not None and "V.mul(b.weight, c.kf, round='up')" in src and "V.div(V.mul(c.kf, E.quota, round='up'), c.vote, round='up')" in src
-    scan(ctx, P, 'droop.rules.meek_prf.Rule.count', 'round-up-placements', 'PRF Meek B.2.a / B.2.f: keep value and keep factor are rounded up', ok)
+    scan(ctx, P, 'droop.rules.meek_prf.Rule.count', 'round-up-placements', 'PRF Meek B.2.a / B.2.f: keep value and keep factor are rounded up', ok, shape=True)
 
 
 # --------------------------------------------------------------------------------------------- C08
@@ -767,9 +813,9 @@ def gen_c08_scans(ctx):
         only = set(rets) <= {'(IS_elected, None)', '(IS_omega, None)', '(IS_stable, None)', '(IS_batch, batch)'}
     else:
         only = False
-    scan(ctx, P, 'droop.rules.meek.Rule.count.<locals>.iterate', 'exit-omega', "iterate() returns 'omega' only under the test surplus <= omega", ok)
-    scan(ctx, P, 'droop.rules.meek.Rule.count.<locals>.iterate', 'exit-stable', "iterate() returns 'stable' only when the surplus stopped decreasing, after logging it", ok_stable)
-    scan(ctx, P, 'droop.rules.meek.Rule.count.<locals>.iterate', 'exit-statuses', 'iterate() ends only as elected / omega / stable / batch', only)
+    scan(ctx, P, 'droop.rules.meek.Rule.count.<locals>.iterate', 'exit-omega', "iterate() returns 'omega' only under the test surplus <= omega", ok, shape=True)
+    scan(ctx, P, 'droop.rules.meek.Rule.count.<locals>.iterate', 'exit-stable', "iterate() returns 'stable' only when the surplus stopped decreasing, after logging it", ok_stable, shape=True)
+    scan(ctx, P, 'droop.rules.meek.Rule.count.<locals>.iterate', 'exit-statuses', 'iterate() ends only as elected / omega / stable / batch', only, shape=True)
     f = repo.resolve('droop.rules.meek.Rule.count')
     ok2 = False
     if f is not None:
@@ -782,7 +828,7 @@ def gen_c08_scans(ctx):
                         # no defeat before this test inside the loop body
                         before = ast.Module(body=body[:i], type_ignores=[])
                         ok2 = not any(isinstance(c, ast.Call) and isinstance(c.func, ast.Attribute) and c.func.attr == 'defeat' for c in ast.walk(before))
-    scan(ctx, P, 'droop.rules.meek.Rule.count', 'defeat-after-iteration', 'exclusions happen only after the iteration ended without electing anybody (omega / stable / batch)', ok2)
+    scan(ctx, P, 'droop.rules.meek.Rule.count', 'defeat-after-iteration', 'exclusions happen only after the iteration ended without electing anybody (omega / stable / batch)', ok2, shape=True)
 
 
 # --------------------------------------------------------------------------------------------- C16 definite assignment, raise sites
@@ -819,7 +865,7 @@ def gen_c16(ctx):
                 if any(isinstance(x, ast.Raise) and norm_src(x.exc).startswith('ElectionProfileError(') for x in ast.walk(node)):
                     handled |= set(names)
     scan(ctx, P, 'droop.profile.ElectionProfile.bltParse', 'converts-stopiteration-valueerror',
-         'running out of tokens (StopIteration) and numerals int() refuses (ValueError) become profile errors', {'StopIteration', 'ValueError'} <= handled, str(sorted(handled)))
+         'running out of tokens (StopIteration) and numerals int() refuses (ValueError) become profile errors', {'StopIteration', 'ValueError'} <= handled, str(sorted(handled)), shape=True)
     # int() is applied only to tokens that matched a digits pattern
     fp = repo.resolve('droop.profile.ElectionProfile._bltParse')
     bad = []
@@ -830,16 +876,16 @@ def gen_c16(ctx):
                 arg = norm_src(node.args[0])
                 if not re.search(r'(digits|sdigits)\.match\(%s\)' % re.escape(arg), src):
                     bad.append('int(%s) at line %d' % (arg, node.lineno))
-    scan(ctx, P, 'droop.profile.ElectionProfile._bltParse', 'int-after-digits', 'int() is applied only to tokens tested against the digits patterns', not bad, '; '.join(bad))
+    scan(ctx, P, 'droop.profile.ElectionProfile._bltParse', 'int-after-digits', 'int() is applied only to tokens tested against the digits patterns', not bad, '; '.join(bad), shape=True)
     # the withdrawn marker is range-checked, the ranking array can hold every candidate id
     f2 = repo.resolve('droop.profile.ElectionProfile.BallotLine.__init__')
     src2 = ast.unparse(f2.node) if f2 else ''
     scan(ctx, P + ['C15'], 'droop.profile.ElectionProfile.BallotLine.__init__', 'array-typecode',
          "the ranking array's typecode is chosen so that the largest candidate id fits ('B' below 256, 'H' below 65536)",
-         "'B' if profile.nCand < 256 else 'H' if profile.nCand < 65536 else 'L'" in src2, '')
+         "'B' if profile.nCand < 256 else 'H' if profile.nCand < 65536 else 'L'" in src2, '', shape=True)
     srcp = ast.unparse(fp.node) if fp else ''
     scan(ctx, P + ['C15'], 'droop.profile.ElectionProfile._bltParse', 'withdrawn-range', 'a -n withdrawn marker beyond the candidate count is rejected',
-         'if wd > self.nCand:' in srcp and 'bad withdrawn candidate ID' in srcp, '')
+         'if wd > self.nCand:' in srcp and 'bad withdrawn candidate ID' in srcp, '', shape=True)
 
 
 # --------------------------------------------------------------------------------------------- model conformance of Candidates.select
@@ -900,7 +946,7 @@ def gen_select_conformance(ctx):
         if f is not None:
             body = [x for x in f.node.body if not (isinstance(x, ast.Expr) and isinstance(x.value, ast.Constant))]
             ok = len(body) == 1 and isinstance(body[0], ast.Return) and norm_src(body[0].value) == "self.select('%s', order, reverse)" % w
-        scan(ctx, P, 'droop.candidates.Candidates.' + w, 'wrapper', "%s() is select('%s', order, reverse)" % (w, w), ok)
+        scan(ctx, P, 'droop.candidates.Candidates.' + w, 'wrapper', "%s() is select('%s', order, reverse)" % (w, w), ok, shape=True)
     # the sort helpers are sorted() on the modelled keys
     for nm, key in (('byBallotOrder', 'lambda c: c.order'), ('byVote', 'lambda c: (c.vote, c.order)'), ('byTieOrder', 'lambda c: c.tieOrder')):
         f = repo.resolve('droop.candidates.Candidates.' + nm)
@@ -908,7 +954,7 @@ def gen_select_conformance(ctx):
         if f is not None:
             body = [x for x in f.node.body if not (isinstance(x, ast.Expr) and isinstance(x.value, ast.Constant))]
             ok = len(body) == 1 and isinstance(body[0], ast.Return) and norm_src(body[0].value) == 'sorted(candidates, key=%s, reverse=reverse)' % key
-        scan(ctx, P, 'droop.candidates.Candidates.' + nm, 'sort-key', '%s sorts by %s (stable sorted(): A-eval)' % (nm, key), ok)
+        scan(ctx, P, 'droop.candidates.Candidates.' + nm, 'sort-key', '%s sorts by %s (stable sorted(): A-eval)' % (nm, key), ok, shape=True)
 
 
 GENERATORS = {
